@@ -98,7 +98,7 @@ def mutate(rnd, raw):
             p, n = rnd.choice(enums)
             n["default"] = rnd.choice(["NOT_A_SYMBOL", "", (n["symbols"][0].lower() if n["symbols"] else "a") + "_x"])
             return kind, s
-        if kind == "default-type" and records and rnd.random() < 0.35:
+        if kind == "default-type" and records and rnd.random() < 0.55:
             # a new optional field ["null", <simple name of a type of the same namespace defined in an earlier field>] with a default that
             # matches neither branch: the check has to resolve the simple name in the enclosing namespace
             cands = []
@@ -118,6 +118,11 @@ def mutate(rnd, raw):
                                                 and f_["type"].get("name", "").rsplit(".", 1)[-1] == x[1] for f_ in x[0].get("fields", []))]
                 if errs and rnd.random() < 0.7:
                     rn, simple = rnd.choice(errs)           # a record declared "error" is a record for this check too
+                if rnd.random() < 0.5:
+                    for f_ in rn.get("fields", []):
+                        t_ = f_.get("type")
+                        if isinstance(t_, dict) and t_.get("type") == "record" and t_.get("name", "").rsplit(".", 1)[-1] == simple:
+                            t_["type"] = "error"          # the same type declared with the "error" keyword
                 rn["fields"].append({"name": "zz_byname", "type": ["null", simple], "default": rnd.choice([5, True, [1], 2.5])})
                 return kind, s
         if kind == "default-type" and fields:
